@@ -399,6 +399,20 @@ def _bounded_case(seed: int) -> Dict[str, Any]:
     pat = rng.choice(["aten::.*", "Memcpy", ".*Sync", "cudaLaunch", "void", "ProfilerStep#\\d+", "nomatch"])
     mt = lambda r: re.match(pat, r["name"]) is not None
     check("NameFilter.encoded", tf.NameFilter(pat), enc, st, mt, dec)
+    if len(dec):
+        # ONE filter object applied to frames encoded with two different symbol tables of the same size (two traces in one session):
+        # the selection depends on the table passed with the call, not on an earlier call
+        st2 = TraceSymbolTable()
+        st2.add_symbols(list(reversed(st.get_sym_table())))
+        enc2 = dec.copy()
+        enc2["name"] = enc2["name"].map(st2.sym_index).astype("int64")
+        enc2["cat"] = enc2["cat"].map(st2.sym_index).astype("int64")
+        reused = tf.NameFilter(pat)
+        check("NameFilter.reused_object.first_table", reused, enc, st, mt, dec)
+        check("NameFilter.reused_object.second_table", reused, enc2, st2, mt, dec)
+        comp_reused = tf.CompositeFilter([tf.NameFilter(pat), tf.RankFilter(rkl)])
+        check("Composite.reused_object.first_table", comp_reused, enc, st, lambda r: mt(r) and r["rank"] in rkl, dec)
+        check("Composite.reused_object.second_table", comp_reused, enc2, st2, lambda r: mt(r) and r["rank"] in rkl, dec)
     check("NameFilter.encoded_ctor", tf.NameFilter(pat, symbol_table=st), enc, None, mt, dec)
     if len(dec):
         check("NameFilter.decoded", tf.NameFilter(pat), dec, None, mt, dec)
